@@ -37,6 +37,14 @@ CHECKS = {
    text="For every generated DAG and every (capped) convex node subset, nestings with local renames, binding placement, inner select and depth 1..3 are built; TLC checks on the models that the nested run equals the flat run (values, exposed outputs, arguments of every leaf function: HGProps!C05) and that InputSpec.tla is invariant under nesting; the real nested and flat graphs are compared with each other and with the specification (graph.inputs as sets, values, leaf arguments).",
    note="Trusted: TLC, builder, gen.nest (constructs the nesting and its flat equivalent). Inner select hides only secondary outputs of multi-output nodes (select narrows a graph's inputs by design).",
    technique="TLA+ engine model + InputSpec: nested vs flat equivalence as TLC invariant; spec->code differential (nested vs flat vs model)"),
+ "C06": dict(level="model_checking", engine="Rename",
+   text="Rename.tla is a transition system over rename histories (every partial injective batch whose result is duplicate-free, incl. swaps, rotations, chains through temporaries); TLC explores all histories within the bounds and checks the batch-aware reverse/forward map algorithms against the position-based semantics; EVERY explored history is replayed on FunctionNode, RouteNode, IfElseNode, InterruptNode and GraphNode (also mapped, with clone lists) and observed through the public surface and by executing the node, comparing received arguments, defaults/bound/types and result names with the model; alpha-renamed graphs are compared with the originals.",
+   note="Trusted: TLC, the replay harness. Rename_gn.cfg keeps the pre-fix GraphNode algorithms as model-level evidence of the two repaired defects (expected to fail); only the replay decides the property.",
+   technique="TLA+ transition system of rename histories model-checked by TLC; replay of all TLC-explored histories into the real nodes"),
+ "C08": dict(level="model_checking", engine="InputSpec",
+   text="InputSpec.tla states the documented contract (scope narrowing, edge cancels default, entry points per cycle, acceptance); TLC evaluates it and checks its laws (disjoint categories, bind/unbind, canonical input set accepted, every single omission rejected) on every configuration. Behaviourally, for the REPORTED spec of the real graph: required + the parameters of one listed entry point per cycle must be accepted (no missing value at run time), and omitting any single required input must raise MissingInputError before any node function, event or shutdown; bind/unbind are exercised on the real object.",
+   note="Trusted: TLC, builder. Differences between reported spec and InputSpec.tla that the documentation does not settle (select narrowing through gates, parameters fed by another cycle) are recorded as divergences, never alarms. One open known finding (inputs of a node bypassed by a bound output).",
+   technique="TLA+ input-contract specification with laws checked by TLC; behavioural sufficiency/necessity enumeration against the real runners"),
  "C10": dict(level="model_checking", engine="HGEngine",
    text="Input combinations (zip/product, row-major) and list collection are defined in HGEngine.tla and evaluated by TLC for every mapping-node and runner.map case of an enumerated family (lengths 0..3, 1-2 mapped parameters, failing items, branching items, raise/continue, renames, clone); the real runners are compared item by item. MapPool.tla (worker pool, completion-order append, order restoration, first error in input order) is model-checked for every configuration and EVERY completion order TLC finds is replayed on AsyncRunner.map with the controlled driver.",
    note="Trusted: TLC, controlled driver, builder. N<=3 items for the pool replay.",
@@ -66,6 +74,8 @@ man = {
            "baseline_off_cmd": "cd /repo && /venv/bin/python -m pytest -ra -q -p no:cacheprovider --timeout=900 --continue-on-collection-errors",
            "source_commits": [], "add_only": True},
  "engines": [{"name": "HGSched", "path": "spec/HGSched.tla", "serves_properties": ["C02"], "kind_free_text": "TLA+ schedule-level spec (permits, completion orders, nested frames, map items) model-checked by TLC; schedules replayed on AsyncRunner"},
+             {"name": "Rename", "path": "spec/Rename.tla", "serves_properties": ["C06"], "kind_free_text": "TLA+ transition system of rename histories, model-checked; histories replayed into real nodes"},
+             {"name": "InputSpec", "path": "spec/InputSpec.tla", "serves_properties": ["C08", "C05"], "kind_free_text": "TLA+ input-contract specification evaluated by TLC (SpecEval batch)"},
              {"name": "Validate", "path": "spec/Validate.tla", "serves_properties": ["C19"], "kind_free_text": "TLA+ structural validity predicate + TypeCompat relation evaluated by TLC"},
              {"name": "Viz", "path": "spec/Viz.tla", "serves_properties": ["C20"], "kind_free_text": "TLA+ faithful-drawing oracle evaluated by TLC on recorded renderings"},
              {"name": "HGEngine", "path": "spec/HGEngine.tla", "serves_properties": sorted(p for p, c in CHECKS.items() if c["engine"] == "HGEngine"),
